@@ -379,3 +379,33 @@ Proof.
   replace (q0 - (1 + 1) * 0 + qdot (qmatvec A h) (qmatvec Pe (qmatvec A h))) with (q0 + qdot (qmatvec A h) (qmatvec Pe (qmatvec A h))) by ring.
   replace q0 with (q0 + 0) at 1 by ring. apply Qcplus_le_compat; [apply Qcle_refl | exact P1].
 Qed.
+
+(* ---------------------------------------------------------------------------------------------
+   Gaussian.compute_cov(): what the model caches in .cov is the two-sided inverse of the precision of the log-density
+   --------------------------------------------------------------------------------------------- *)
+Theorem compute_cov_spec p dim c C :
+  compute_cov_model p dim c = Some C ->
+  let M := sq_of dim c in
+  match p with
+  | PCov => C = M
+  | PPrec => qmatmul (length M) M C = qident (length M) /\ qmatmul (length M) C M = qident (length M)
+  | PSqrtcov => C = qmatmul dim M (qtranspose dim M)
+  | PSqrtprec => let P := qmatmul dim (qtranspose dim M) M in
+                 qmatmul (length P) P C = qident (length P) /\ qmatmul (length P) C P = qident (length P)
+  end.
+Proof.
+  intros H. cbv zeta. destruct p; unfold compute_cov_model in H; cbv zeta in H.
+  - injection H as <-. reflexivity.
+  - apply qinv_sound in H. exact H.
+  - injection H as <-. reflexivity.
+  - apply qinv_sound in H. exact H.
+Qed.
+
+(* MAP after compute_cov() reads exactly that matrix, whatever was observed *)
+Theorem gd_cov_after_compute_cov dim g obs :
+  gd_computed g = Some obs ->
+  gd_cov dim g = match compute_cov_model (mk_param (gd_param g)) dim (mk_cov (gd_kind g) (gd_s g) (gd_v g) (gd_M g)) with
+                 | Some C => Some (CMatrix C)
+                 | None => cov_getter (mk_param (gd_param g)) (mk_cov (gd_kind g) (gd_s g) (gd_v g) (gd_M g)) None
+                 end.
+Proof. intros H. unfold gd_cov. rewrite H. destruct (compute_cov_model _ _ _); reflexivity. Qed.
